@@ -58,7 +58,9 @@ func (n *LocalNode) stabilize() error {
 
 			if newSucc != nil && chord.Between(n.ID(), newSucc.ID(), head.ID(), false) {
 				newSuccList, nsErr = newSucc.GetSuccessors()
-				if nsErr == nil {
+				// a joining node is already its successor's predecessor while it has yet to install the successor list
+				// it was answered with: it cannot route anything before that, adopt it in a later round
+				if nsErr == nil && len(newSuccList) > 0 {
 					succList = chord.MakeSuccListByID(newSucc, newSuccList, chord.ExtendedSuccessorEntries)
 					modified = true
 				}
